@@ -136,6 +136,18 @@ class FinamInterp(Interp):
 
     def call_hook(self, fv, args, kwargs, node, mod):
         if isinstance(fv, Sym):
+            if fv.op == "ntfactory":
+                from .interp import NamedTup
+                _n, fields, defaults = fv.args
+                vals = list(args)
+                for f in fields[len(vals):]:
+                    if f in kwargs:
+                        vals.append(kwargs[f])
+                    elif defaults is not None and len(fields) - fields.index(f) <= len(defaults):
+                        vals.append(defaults[fields.index(f) - (len(fields) - len(defaults))])
+                    else:
+                        self.on_raise(Sym("exc", "TypeError", f"missing argument {f}"), node)
+                return NamedTup(None, fields, vals)
             if fv.op == "attrgetter" and len(args) == 1:
                 return self.attr(args[0], fv.args[0], node, mod)
             if fv.op == "itemgetter" and len(args) == 1:
@@ -199,6 +211,15 @@ class FinamInterp(Interp):
                 if taking == name.endswith("takewhile"):
                     out.append(x)
             return out
+        if name in ("replace", "dataclasses.replace", "copy.replace") and args and isinstance(args[0], Obj):
+            n = Obj(cls=args[0].cls, label=args[0].label, markers=args[0].markers)
+            n.fields = dict(args[0].fields)
+            n.fields.update(kwargs)
+            return n
+        if name in ("namedtuple", "collections.namedtuple") and len(args) >= 2 and isinstance(args[0], str):
+            fields = args[1].replace(",", " ").split() if isinstance(args[1], str) else list(args[1])
+            defaults = kwargs.get("defaults")
+            return Sym("ntfactory", args[0], tuple(fields), tuple(defaults) if defaults is not None else None)
         if name in ("attrgetter", "operator.attrgetter") and len(args) == 1 and isinstance(args[0], str) and "." not in args[0]:
             return Sym("attrgetter", args[0])
         if name in ("itemgetter", "operator.itemgetter") and len(args) == 1:
